@@ -1,24 +1,26 @@
 /-
-C10 on `buildLookupTables` obtained from the source text.                                   *** PARTIAL ***
+C10 on `buildLookupTables` obtained from the source text.
 
 `Generated/LutAst.lean` is produced on every run by `tools/gen_lut_ast.py` from clang's typed AST of
 include/nfl/prng/FastGaussianNoise.hpp (`buildLookupTables`, instantiations <uint8_t,int32_t,1>, <uint16_t,int64_t,1>,
 <uint16_t,int64_t,2>, <uint8_t,uint64_t,2>; per-node semantics Model/CSem.lean + CSemGauss.lean + CSemLut.lean; the barriers are a
 PARAMETER: `barriers : List (List Nat)`, `_number_of_barriers`, `_lu_size`, `rounded_center`).
 PROVED (for all inputs):
-  * `fill_ast_eq_partial`, `run_ast_eq_partial`: the two inner loops of the generated depth-1 builder (`while (lu_index1 <
-    barriers[b_index][0] && lu_index1 < _lu_size)` and `while (b_index < _number_of_barriers && lu_index1 == barriers[b_index][0])`)
-    EQUAL the hand model's `fillLoop` / `runLoop1` for every fuel, every table, every barrier list, every `val` (taken mod 2^64).
-    Hypotheses: `nb = bs.length` (what `_number_of_barriers` is), `nb < 2^31` (`b_index` is compared as `long`, fits), words `< 2^31`
-    (C type of `in_class`), `lu_index1 < lu_table size` for the run loop (the code has stored into that cell just before),
-    `_lu_size < 2^32` (its C type), `CoutOK` = the conversion `int64_t → out_class` of the instantiation (`cout_*`).
-  * `tables_ast_tableOK_partial_*`, `iter_on_ast_tables_invCDF_partial_*`: IF the generated builder's tables are the encoding of
-    `buildLUT`'s (hypothesis `heq`; PROVED only for the inner loops, CHECKED by `decide` on the examples below for the whole function,
-    both depths) THEN they satisfy `tableOK` (via `C10.buildLUT_tableOK`) and the GENERATED sampling iteration run on the GENERATED
-    tables is the inverse CDF (via `C10Ast.iter_ast_invCDF_*`).
-NOT PROVED: `heq` itself for all barrier tables (the outer loop of depth 1, the depth-2 loops): see Proofs/LutAstEq.lean, end.
+  * `fill_ast_eq`, `run_ast_eq`: the two inner loops of the generated depth-1 builder EQUAL the hand model's `fillLoop` / `runLoop1`
+    for every fuel, every table, every barrier list, every `val` (taken mod 2^64).
+  * `build_ast_eq_*` (4 instantiations, both depths): the WHOLE generated function equals the hand model `buildLUT` — `lu_table`
+    (and `lu_table2` at depth 2) are the encodings of the model's tables, and the generated function is `none` (an access outside an
+    object, or a `while` out of fuel) exactly when the model is.  For EVERY barrier list and every `_lu_size < 2^31`.  Hypotheses:
+    `_number_of_barriers = bs.length`, `1 ≤ nb < 2^31`, barrier words `< 2^31` (C type of `in_class`), and `CenterOK`: the `int`
+    expressions `-((int)nb-1)/2 + rounded_center`, `((int)nb-1)/2 + rounded_center` do not overflow (signed overflow is undefined).
+    (Proofs/LutAstEq.lean, LutAstEq2.lean (depth 1), LutAstEq3.lean (depth 2): simulation of every loop, invariant
+    `b_index ≤ nb ∧ val = v₀ + b_index`; that the translator's fuels suffice is part of the equality.)
+  * `tables_ast_tableOK_*`: UNCONDITIONALLY, for every well-formed sorted barrier table (C10's hypotheses), the GENERATED builder
+    returns tables that are the encoding of tables satisfying `tableOK` (via `C10.buildLUT_tableOK`);
+  * `iter_on_ast_tables_invCDF_*`: hence one GENERATED sampling iteration run on the GENERATED tables returns the inverse CDF
+    (via `C10Ast.iter_ast_invCDF_*`).
 -/
-import NflVerif.Proofs.LutAstEq
+import NflVerif.Proofs.LutAstEq3
 import NflVerif.Properties.C10Ast
 
 namespace Nfl.C10LutAst
@@ -33,7 +35,7 @@ theorem cout_u64 : CoutOK 64 (CGauss.castSwU 64 64) := by
   by_cases h : (v % 2 ^ 64).toNat % 2 ^ 64 < 2 ^ (64 - 1) <;> simp only [h, if_true, if_false] <;> omega
 
 /-- the fill loop of the generated builder = `Gauss.fillLoop` -/
-theorem fill_ast_eq_partial (ob W : Nat) (cout : Nat → Nat) (hc : CoutOK ob cout) (bs : List Str) (b : Nat) (hb : b < 2 ^ 63)
+theorem fill_ast_eq (ob W : Nat) (cout : Nat → Nat) (hc : CoutOK ob cout) (bs : List Str) (b : Nat) (hb : b < 2 ^ 63)
     (s : Str) (first : Nat) (hs : bs[b]? = some s) (h0 : s[0]? = some first) (hf : first < 2 ^ 31) (hW : W < 2 ^ 32)
     (v : Int) (fuel lu1 : Nat) (t : Array Cell) :
     CLut.whileFuel fuel (fillCond W bs b) (fillBody cout (enc 64 v)) (encA ob t, lu1) =
@@ -41,7 +43,7 @@ theorem fill_ast_eq_partial (ob W : Nat) (cout : Nat → Nat) (hc : CoutOK ob co
   fill_sim ob W cout hc bs b hb s first hs h0 hf hW v fuel lu1 t
 
 /-- the barrier-run loop of the generated depth-1 builder = `Gauss.runLoop1` (the pushed barriers end up in the cell's list) -/
-theorem run_ast_eq_partial (ob nb : Nat) (bs : List Str) (hnb : nb = bs.length) (hn31 : nb < 2 ^ 31) (hsm : ∀ s ∈ bs, Small s)
+theorem run_ast_eq (ob nb : Nat) (bs : List Str) (hnb : nb = bs.length) (hn31 : nb < 2 ^ 31) (hsm : ∀ s ∈ bs, Small s)
     (lu1 fuel b : Nat) (hb : b ≤ nb) (v : Int) (t : Array Cell) (ht : lu1 < t.size) :
     CLut.whileFuel fuel (run1Cond nb bs lu1) (run1Body bs lu1) (encA ob t, enc 64 v, b) =
       (runLoop1 bs.toArray lu1 fuel b v []).map (fun r =>
@@ -53,67 +55,143 @@ generated text for `nb ≠ bs.length` reads `barriers[nb]` -/
 example : CLut.whileFuel 3 (run1Cond 2 [[0]] 0) (run1Body [[0]] 0) (encA 32 #[default], 0, 1) = none ∧
     runLoop1 #[[0]] 0 3 1 0 [] = some (1, 0, []) := by decide
 
-/-- generated tables = encoding of the model's tables ⇒ `tableOK` (depth 1, `<uint8_t,int32_t,1>`) -/
-theorem tables_ast_tableOK_partial_u8_i32_1 {wp : Nat} {bs : List Str} (rc : Int) (rc32 : Nat)
+/-! ### the whole function -/
+
+/-- the `int` expressions of the `for` header do not overflow (signed overflow is undefined behaviour) -/
+def CenterOK (nb : Nat) (rc : Int) : Prop :=
+  -(2 ^ 31 : Int) ≤ rc ∧ rc < 2 ^ 31 ∧ -(2 ^ 31 : Int) ≤ v0Of nb rc ∧ vmaxOf nb rc < 2 ^ 31
+
+theorem buildLUT_one (W : Nat) (bs : List Str) (rc : Int) : buildLUT 1 W bs rc = buildLUT1 W bs rc := rfl
+theorem buildLUT_two (W : Nat) (bs : List Str) (rc : Int) : buildLUT 2 W bs rc = buildLUT2 W bs rc := rfl
+
+/-- **`buildLookupTables<uint8_t,int32_t,1>` from the source text = `buildLUT 1`** (every barrier list, every `_lu_size < 2^31`) -/
+theorem build_ast_eq_u8_i32_1 (W : Nat) (bs : List Str) (rc : Int) (hnb1 : 1 ≤ bs.length) (hn31 : bs.length < 2 ^ 31)
+    (hsm : ∀ s ∈ bs, Small s) (hW : W < 2 ^ 31) (hrc : CenterOK bs.length rc) :
+    (buildLookupTables_u8_i32_1 bs.length W (enc 32 rc) bs).map (fun r => r.2.2) = (buildLUT 1 W bs rc).map (encT1 32) := by
+  rw [build_u8_i32_1_eq_G, buildLUT_one]
+  exact buildG1_eq 32 bs.length W _ cout_i32 bs rc rfl hnb1 hn31 hsm hW hrc.1 hrc.2.1 hrc.2.2.1 hrc.2.2.2
+
+theorem build_ast_eq_u16_i64_1 (W : Nat) (bs : List Str) (rc : Int) (hnb1 : 1 ≤ bs.length) (hn31 : bs.length < 2 ^ 31)
+    (hsm : ∀ s ∈ bs, Small s) (hW : W < 2 ^ 31) (hrc : CenterOK bs.length rc) :
+    (buildLookupTables_u16_i64_1 bs.length W (enc 32 rc) bs).map (fun r => r.2.2) = (buildLUT 1 W bs rc).map (encT1 64) := by
+  rw [build_u16_i64_1_eq_G, buildLUT_one]
+  exact buildG1_eq 64 bs.length W _ cout_i64 bs rc rfl hnb1 hn31 hsm hW hrc.1 hrc.2.1 hrc.2.2.1 hrc.2.2.2
+
+/-- **depth 2, `<uint16_t,int64_t,2>`: `lu_table` and `lu_table2` = `buildLUT 2`** -/
+theorem build_ast_eq_u16_i64_2 (W : Nat) (bs : List Str) (rc : Int) (hnb1 : 1 ≤ bs.length) (hn31 : bs.length < 2 ^ 31)
+    (hsm : ∀ s ∈ bs, Small s) (hW : W < 2 ^ 31) (hrc : CenterOK bs.length rc) :
+    (buildLookupTables_u16_i64_2 bs.length W (enc 32 rc) bs).map (fun r => (r.2.2.1, r.2.2.2)) =
+      (buildLUT 2 W bs rc).map (fun T => (encT1 64 T, encT2 64 T)) := by
+  rw [build_u16_i64_2_eq_G, buildLUT_two]
+  exact buildG2_eq 64 bs.length W _ cout_i64 bs rc rfl hnb1 hn31 hsm hW hrc.1 hrc.2.1 hrc.2.2.1 hrc.2.2.2
+
+theorem build_ast_eq_u8_u64_2 (W : Nat) (bs : List Str) (rc : Int) (hnb1 : 1 ≤ bs.length) (hn31 : bs.length < 2 ^ 31)
+    (hsm : ∀ s ∈ bs, Small s) (hW : W < 2 ^ 31) (hrc : CenterOK bs.length rc) :
+    (buildLookupTables_u8_u64_2 bs.length W (enc 32 rc) bs).map (fun r => (r.2.2.1, r.2.2.2)) =
+      (buildLUT 2 W bs rc).map (fun T => (encT1 64 T, encT2 64 T)) := by
+  rw [build_u8_u64_2_eq_G, buildLUT_two]
+  exact buildG2_eq 64 bs.length W _ cout_u64 bs rc rfl hnb1 hn31 hsm hW hrc.1 hrc.2.1 hrc.2.2.1 hrc.2.2.2
+
+theorem small_of_WF {W wp : Nat} {bs : List Str} (hW : W ≤ 2 ^ 31) (hwf : barriersWF W wp bs = true) : ∀ s ∈ bs, Small s := by
+  intro s hs x hx
+  simp only [barriersWF, List.all_eq_true, Bool.and_eq_true, decide_eq_true_eq] at hwf
+  have := (hwf s hs).2 x hx
+  omega
+
+/-! ### the generated builder's tables satisfy `tableOK`; the generated iteration on them is the inverse CDF -/
+
+/-- UNCONDITIONAL (depth 1, `<uint8_t,int32_t,1>`): for every well-formed sorted barrier table the generated builder returns a
+`lu_table` that is the encoding of a table satisfying `tableOK` -/
+theorem tables_ast_tableOK_u8_i32_1 {wp : Nat} {bs : List Str} (rc : Int)
     (hwf : barriersWF (2 ^ 8) wp bs = true) (hsort : sortedB bs = true) (hwp : 1 ≤ wp) (hodd : bs.length % 2 = 1)
-    (hlast : lastOnes (2 ^ 8) 1 bs = true)
-    (heq : (buildLookupTables_u8_i32_1 bs.length (2 ^ 8) rc32 bs).map (fun r => r.2.2) =
-      (buildLUT 1 (2 ^ 8) bs rc).map (encT1 32)) :
-    ∃ T r, buildLookupTables_u8_i32_1 bs.length (2 ^ 8) rc32 bs = some r ∧ r.2.2 = encT1 32 T ∧
+    (hlast : lastOnes (2 ^ 8) 1 bs = true) (hn31 : bs.length < 2 ^ 31) (hrc : CenterOK bs.length rc) :
+    ∃ T r, buildLookupTables_u8_i32_1 bs.length (2 ^ 8) (enc 32 rc) bs = some r ∧ r.2.2 = encT1 32 T ∧
       tableOK 1 (2 ^ 8) bs (v0Of bs.length rc) T = true := by
+  have heq := build_ast_eq_u8_i32_1 (2 ^ 8) bs rc (by omega) hn31 (small_of_WF (by omega) hwf) (by omega) hrc
   obtain ⟨T, hb, hT⟩ := C10.buildLUT_tableOK rc (Or.inl rfl) (by decide) hwf hsort hwp hodd hlast
   rw [hb] at heq
-  cases hg : buildLookupTables_u8_i32_1 bs.length (2 ^ 8) rc32 bs with
+  cases hg : buildLookupTables_u8_i32_1 bs.length (2 ^ 8) (enc 32 rc) bs with
   | none => rw [hg] at heq; simp at heq
   | some r => rw [hg] at heq; exact ⟨T, r, rfl, by simpa using heq, hT⟩
 
 /-- … and the GENERATED iteration of `getNoise` run on the GENERATED table is the inverse CDF -/
-theorem iter_on_ast_tables_invCDF_partial_u8_i32_1 {wp : Nat} {bs : List Str} (rc : Int) (rc32 : Nat)
+theorem iter_on_ast_tables_invCDF_u8_i32_1 {wp : Nat} {bs : List Str} (rc : Int)
     (out : Ptr) (co ibs iw uw : Nat) (noise nip : Ptr)
     (hwf : barriersWF (2 ^ 8) wp bs = true) (hsort : sortedB bs = true) (hwp : 1 ≤ wp) (hwp31 : wp < 2 ^ 31)
-    (hodd : bs.length % 2 = 1) (hlast : lastOnes (2 ^ 8) 1 bs = true)
-    (heq : (buildLookupTables_u8_i32_1 bs.length (2 ^ 8) rc32 bs).map (fun r => r.2.2) =
-      (buildLUT 1 (2 ^ 8) bs rc).map (encT1 32))
+    (hodd : bs.length % 2 = 1) (hlast : lastOnes (2 ^ 8) 1 bs = true) (hn31 : bs.length < 2 ^ 31) (hrc : CenterOK bs.length rc)
     (hrem : noise.off + wp ≤ noise.obj.length) (hw : ∀ x ∈ noise.obj, x < 2 ^ 8) (hco : out.off + co < out.obj.length) :
-    ∃ T r res y, buildLookupTables_u8_i32_1 bs.length (2 ^ 8) rc32 bs = some r ∧ r.2.2 = encT1 32 T ∧
+    ∃ T r res y, buildLookupTables_u8_i32_1 bs.length (2 ^ 8) (enc 32 rc) bs = some r ∧ r.2.2 = encT1 32 T ∧
       getNoise_iter_u8_i32_1 wp r.2.2 (encT2 32 T) out co ibs iw uw noise nip = some res ∧
       res.1 = ⟨out.obj.set (out.off + co) y, out.off⟩ ∧
       valOfOut 32 true y = outStore 32 true (invCDF bs (v0Of bs.length rc) ((noise.obj.drop noise.off).take wp)) := by
-  obtain ⟨T, r, hr, hrt, hT⟩ := tables_ast_tableOK_partial_u8_i32_1 rc rc32 hwf hsort hwp hodd hlast heq
+  obtain ⟨T, r, hr, hrt, hT⟩ := tables_ast_tableOK_u8_i32_1 rc hwf hsort hwp hodd hlast hn31 hrc
   obtain ⟨res, y, h1, h2, h3⟩ := C10Ast.iter_ast_invCDF_u8_i32_1 out co ibs iw uw noise nip hwf hsort hT hwp hwp31 hrem hw hco
   exact ⟨T, r, res, y, hr, hrt, by rw [hrt]; exact h1, h2, h3⟩
 
 /-- depth 2, `<uint8_t,uint64_t,2>`: both tables -/
-theorem tables_ast_tableOK_partial_u8_u64_2 {wp : Nat} {bs : List Str} (rc : Int) (rc32 : Nat)
+theorem tables_ast_tableOK_u8_u64_2 {wp : Nat} {bs : List Str} (rc : Int)
     (hwf : barriersWF (2 ^ 8) wp bs = true) (hsort : sortedB bs = true) (hwp : 2 ≤ wp) (hodd : bs.length % 2 = 1)
-    (hlast : lastOnes (2 ^ 8) 2 bs = true)
-    (heq : (buildLookupTables_u8_u64_2 bs.length (2 ^ 8) rc32 bs).map (fun r => (r.2.2.1, r.2.2.2)) =
-      (buildLUT 2 (2 ^ 8) bs rc).map (fun T => (encT1 64 T, encT2 64 T))) :
-    ∃ T r, buildLookupTables_u8_u64_2 bs.length (2 ^ 8) rc32 bs = some r ∧ r.2.2.1 = encT1 64 T ∧ r.2.2.2 = encT2 64 T ∧
+    (hlast : lastOnes (2 ^ 8) 2 bs = true) (hn31 : bs.length < 2 ^ 31) (hrc : CenterOK bs.length rc) :
+    ∃ T r, buildLookupTables_u8_u64_2 bs.length (2 ^ 8) (enc 32 rc) bs = some r ∧ r.2.2.1 = encT1 64 T ∧ r.2.2.2 = encT2 64 T ∧
       tableOK 2 (2 ^ 8) bs (v0Of bs.length rc) T = true := by
+  have heq := build_ast_eq_u8_u64_2 (2 ^ 8) bs rc (by omega) hn31 (small_of_WF (by omega) hwf) (by omega) hrc
   obtain ⟨T, hb, hT⟩ := C10.buildLUT_tableOK rc (Or.inr rfl) (by decide) hwf hsort hwp hodd hlast
   rw [hb] at heq
-  cases hg : buildLookupTables_u8_u64_2 bs.length (2 ^ 8) rc32 bs with
+  cases hg : buildLookupTables_u8_u64_2 bs.length (2 ^ 8) (enc 32 rc) bs with
   | none => rw [hg] at heq; simp at heq
   | some r =>
     rw [hg] at heq
     simp only [Option.map_some, Option.some.injEq, Prod.mk.injEq] at heq
     exact ⟨T, r, rfl, heq.1, heq.2, hT⟩
 
-theorem iter_on_ast_tables_invCDF_partial_u8_u64_2 {wp : Nat} {bs : List Str} (rc : Int) (rc32 : Nat)
+theorem iter_on_ast_tables_invCDF_u8_u64_2 {wp : Nat} {bs : List Str} (rc : Int)
     (out : Ptr) (co ibs iw uw : Nat) (noise nip : Ptr)
     (hwf : barriersWF (2 ^ 8) wp bs = true) (hsort : sortedB bs = true) (hwp : 2 ≤ wp) (hwp31 : wp < 2 ^ 31)
-    (hodd : bs.length % 2 = 1) (hlast : lastOnes (2 ^ 8) 2 bs = true)
-    (heq : (buildLookupTables_u8_u64_2 bs.length (2 ^ 8) rc32 bs).map (fun r => (r.2.2.1, r.2.2.2)) =
-      (buildLUT 2 (2 ^ 8) bs rc).map (fun T => (encT1 64 T, encT2 64 T)))
+    (hodd : bs.length % 2 = 1) (hlast : lastOnes (2 ^ 8) 2 bs = true) (hn31 : bs.length < 2 ^ 31) (hrc : CenterOK bs.length rc)
     (hrem : noise.off + wp ≤ noise.obj.length) (hw : ∀ x ∈ noise.obj, x < 2 ^ 8) (hco : out.off + co < out.obj.length) :
-    ∃ r res y, buildLookupTables_u8_u64_2 bs.length (2 ^ 8) rc32 bs = some r ∧
+    ∃ r res y, buildLookupTables_u8_u64_2 bs.length (2 ^ 8) (enc 32 rc) bs = some r ∧
       getNoise_iter_u8_u64_2 wp r.2.2.1 r.2.2.2 out co ibs iw uw noise nip = some res ∧
       res.1 = ⟨out.obj.set (out.off + co) y, out.off⟩ ∧
       valOfOut 64 false y = outStore 64 false (invCDF bs (v0Of bs.length rc) ((noise.obj.drop noise.off).take wp)) := by
-  obtain ⟨T, r, hr, h1t, h2t, hT⟩ := tables_ast_tableOK_partial_u8_u64_2 rc rc32 hwf hsort hwp hodd hlast heq
+  obtain ⟨T, r, hr, h1t, h2t, hT⟩ := tables_ast_tableOK_u8_u64_2 rc hwf hsort hwp hodd hlast hn31 hrc
   obtain ⟨res, y, h1, h2, h3⟩ := C10Ast.iter_ast_invCDF_u8_u64_2 out co ibs iw uw noise nip hwf hsort hT hwp hwp31 hrem hw hco
   exact ⟨r, res, y, hr, by rw [h1t, h2t]; exact h1, h2, h3⟩
+
+/-- depth 2, `<uint16_t,int64_t,2>` -/
+theorem tables_ast_tableOK_u16_i64_2 {wp : Nat} {bs : List Str} (rc : Int)
+    (hwf : barriersWF (2 ^ 16) wp bs = true) (hsort : sortedB bs = true) (hwp : 2 ≤ wp) (hodd : bs.length % 2 = 1)
+    (hlast : lastOnes (2 ^ 16) 2 bs = true) (hn31 : bs.length < 2 ^ 31) (hrc : CenterOK bs.length rc) :
+    ∃ T r, buildLookupTables_u16_i64_2 bs.length (2 ^ 16) (enc 32 rc) bs = some r ∧ r.2.2.1 = encT1 64 T ∧ r.2.2.2 = encT2 64 T ∧
+      tableOK 2 (2 ^ 16) bs (v0Of bs.length rc) T = true := by
+  have heq := build_ast_eq_u16_i64_2 (2 ^ 16) bs rc (by omega) hn31 (small_of_WF (by omega) hwf) (by omega) hrc
+  obtain ⟨T, hb, hT⟩ := C10.buildLUT_tableOK rc (Or.inr rfl) (by decide) hwf hsort hwp hodd hlast
+  rw [hb] at heq
+  cases hg : buildLookupTables_u16_i64_2 bs.length (2 ^ 16) (enc 32 rc) bs with
+  | none => rw [hg] at heq; simp at heq
+  | some r =>
+    rw [hg] at heq
+    simp only [Option.map_some, Option.some.injEq, Prod.mk.injEq] at heq
+    exact ⟨T, r, rfl, heq.1, heq.2, hT⟩
+
+theorem iter_on_ast_tables_invCDF_u16_i64_2 {wp : Nat} {bs : List Str} (rc : Int)
+    (out : Ptr) (co ibs iw uw : Nat) (noise nip : Ptr)
+    (hwf : barriersWF (2 ^ 16) wp bs = true) (hsort : sortedB bs = true) (hwp : 2 ≤ wp) (hwp31 : wp < 2 ^ 31)
+    (hodd : bs.length % 2 = 1) (hlast : lastOnes (2 ^ 16) 2 bs = true) (hn31 : bs.length < 2 ^ 31) (hrc : CenterOK bs.length rc)
+    (hrem : noise.off + wp ≤ noise.obj.length) (hw : ∀ x ∈ noise.obj, x < 2 ^ 16) (hco : out.off + co < out.obj.length) :
+    ∃ r res y, buildLookupTables_u16_i64_2 bs.length (2 ^ 16) (enc 32 rc) bs = some r ∧
+      getNoise_iter_u16_i64_2 wp r.2.2.1 r.2.2.2 out co ibs iw uw noise nip = some res ∧
+      res.1 = ⟨out.obj.set (out.off + co) y, out.off⟩ ∧
+      valOfOut 64 true y = outStore 64 true (invCDF bs (v0Of bs.length rc) ((noise.obj.drop noise.off).take wp)) := by
+  obtain ⟨T, r, hr, h1t, h2t, hT⟩ := tables_ast_tableOK_u16_i64_2 rc hwf hsort hwp hodd hlast hn31 hrc
+  obtain ⟨res, y, h1, h2, h3⟩ := C10Ast.iter_ast_invCDF_u16_i64_2 out co ibs iw uw noise nip hwf hsort hT hwp hwp31 hrem hw hco
+  exact ⟨r, res, y, hr, by rw [h1t, h2t]; exact h1, h2, h3⟩
+
+/-- the hypotheses are satisfiable (3 barriers of 2 words over `uint8_t`, centre -1, both depths) -/
+example : barriersWF (2 ^ 8) 2 [[0, 2], [1, 3], [255, 255]] = true ∧ sortedB [[0, 2], [1, 3], [255, 255]] = true ∧
+    lastOnes (2 ^ 8) 2 [[0, 2], [1, 3], [255, 255]] = true ∧ lastOnes (2 ^ 8) 1 [[0, 2], [1, 3], [255, 255]] = true ∧
+    CenterOK 3 (-1) := by
+  refine ⟨by decide, by decide, by decide, by decide, ?_⟩
+  unfold CenterOK v0Of vmaxOf; omega
 
 /-! ### non-vacuity / whole-function checks on concrete tables (`W = 4`, C10's example barriers; centre 0 and -1) -/
 
